@@ -69,6 +69,25 @@ PROPS = {
                                   "strconv.ParseFloat trusted (reference in Spec/ParseFloat.lean compared on every number)"],
         assumptions=["inputs are Go strings (arbitrary bytes)"],
     ),
+    "C07": dict(
+        modules=["GeomVerif.Properties.C07"],
+        n_quick=8000, n_thorough=150000, thorough_seeds=4, min_theorems=10,
+        rule="ops geom / feat / fc: geometries of all 7 types (nesting <= 2, parts empty with P about 1/5, empty collections with or without a fixed layout) in XY, XYZ, "
+             "XYM, XYZM, Layout(5), Layout(6) with finite ordinates from the decimal stress pool; Features with ids {'', digits, float text, escapes/unicode, long}, bbox "
+             "{none, 4 numbers, 6 numbers}, geometry or null, properties {null, {}, nested maps with strings needing escapes, floats, bools, nulls, arrays}; "
+             "FeatureCollections of 0..3 features incl. nil entries: Marshal -> text -> Unmarshal, plus Encode -> Decode. op dec (40% of the stream): a fixed corpus "
+             "(null / missing / ragged / null coordinates, case-folded and duplicate keys, ids of every JSON kind, bbox lengths, crs, trailing text, invalid UTF-8) and "
+             "valid documents of each kind damaged at the byte level or mutated as JSON trees (replace / delete / duplicate / insert nodes, rename or duplicate keys, add or "
+             "drop an ordinate, null elements, crs and bbox members, id variants, out-of-range numbers), decoded as a geometry, a Feature or a FeatureCollection. "
+             "Go's result must equal the model's (typed decoding semantics incl.) at the flat-representation level. non-trivial = all",
+        nontrivial=lambda op, inp: True,
+        trusted_base=TB_COMMON + ["encoding/json's scanner and encoder are trusted stdlib: the model receives the JSON value Go's tokenizer produced (harness jvParse) for decoder "
+                                  "inputs, and reads encoder output with its own RFC 8259 reader (Spec/JsonText.lean); the typed-decoding rules the library depends on (null handling, "
+                                  "case folding, duplicate keys, numbers out of range) are modelled in Model/GeoJson.lean and validated by the correspondence",
+                                  "strconv.ParseFloat / FormatFloat trusted (references in Spec/ParseFloat.lean compared on every number / numeric id)",
+                                  "duplicate `bbox` / `features` keys (slice reuse in encoding/json) are not generated"],
+        assumptions=["finite ordinates", "geojson.DefaultLayout left at XY"],
+    ),
     "C08": dict(
         modules=["GeomVerif.Properties.C08"],
         n_quick=20000, n_thorough=300000, thorough_seeds=4, min_theorems=4,
